@@ -1,6 +1,6 @@
 (* Proofs for properties C18 and C19: the model of Drop / reloadFirewall (model/Conntrack.v, model/FwReload.v)
-   satisfies the per-flow specification [flow_ok] on every history; off the exact-instant boundary the
-   specification determines the verdicts ([flow_fn]), which gives independence of flows; direct corollaries
+   satisfies the per-flow specification [flow_ok] on every history, i.e. the verdicts of a flow are the function
+   [flow_fn] of that flow's own packets, which gives independence of flows; direct corollaries
    (idle expiry, a refused flow stays refused, revalidation after reload, same-rules reload). *)
 From Coq Require Import List ZArith NArith Bool Lia.
 Import ListNotations.
@@ -16,9 +16,10 @@ Notation exec := (exec allowed addr_ok).
 Notation verdicts := (verdicts allowed addr_ok).
 Notation flow_ok := (flow_ok allowed addr_ok).
 Notation flow_fn := (flow_fn allowed addr_ok).
-Notation boundary_free := (boundary_free allowed addr_ok).
+Notation fl_verdict := (fl_verdict allowed addr_ok).
+Notation fl_live := (fl_live allowed).
+Notation s_step := (s_step allowed addr_ok).
 Notation quiet := (quiet allowed addr_ok).
-Notation fl_judge := (fl_judge allowed addr_ok).
 Notation fl_next := (fl_next allowed addr_ok).
 Notation tail_o := (tail_o allowed).
 Notation drop_tail := (drop_tail allowed).
@@ -45,12 +46,11 @@ Definition matches (fw : fwcfg) (c : conn) (e : Z) (d0 fr : bool) : Prop :=
 
 Definition Rfs (fw : fwcfg) (now : Z) (fs : fstate) (o : option conn) : Prop :=
   match fs with
-  | FUnknown => True
   | FNone => match o with Some c => c_exp c < now | None => True end
   | FKnown e d0 fr =>
       match o with
-      | Some c => (c_exp c < now /\ e <= now) \/ matches fw c e d0 fr
-      | None => e <= now
+      | Some c => (c_exp c < now /\ e < now) \/ matches fw c e d0 fr
+      | None => e < now
       end
   end.
 
@@ -59,33 +59,27 @@ Definition Rf (f : tuple) (n : node) (s : sstate) : Prop :=
 
 Lemma Rfs_shrinks fw now fs m m' f : shrinks now m m' -> Rfs fw now fs (cfind f m) -> Rfs fw now fs (cfind f m').
 Proof.
-  intros S R. destruct (S f) as [S1 S2]. destruct fs as [|e d0 fr|]; cbn [Rfs] in *; [| |exact I].
+  intros S R. destruct (S f) as [S1 S2]. destruct fs as [|e d0 fr]; cbn [Rfs] in *.
   - destruct (cfind f m') as [c|] eqn:F'; [|exact I]. now rewrite (S1 c eq_refl) in R.
   - destruct (cfind f m') as [c|] eqn:F'.
     + now rewrite (S1 c eq_refl) in R.
     + destruct (cfind f m) as [c|] eqn:F; [|exact R].
       destruct R as [[_ R]|[E _]]; [exact R|].
-      destruct (Z.lt_ge_cases now e) as [L|L]; [|exact L].
+      destruct (Z.lt_ge_cases e now) as [L|L]; [exact L|].
       assert (X : None = Some c) by (apply S2; [reflexivity|lia]). discriminate X.
 Qed.
 
 Lemma Rfs_time fw now now' fs o : now <= now' -> Rfs fw now fs o -> Rfs fw now' fs o.
 Proof.
-  intros L R. destruct fs as [|e d0 fr|]; cbn [Rfs] in *; [| |exact I].
+  intros L R. destruct fs as [|e d0 fr]; cbn [Rfs] in *.
   - destruct o; [lia|exact I].
   - destruct o; [|lia]. destruct R as [[R1 R2]|R]; [left; lia|now right].
 Qed.
 
-(* ---- one packet of flow f: the verdict is what the specification allows, and the relation is kept -------- *)
-
-Ltac brk :=
-  repeat match goal with
-         | H : (_ <? _) = true |- _ => apply Z.ltb_lt in H
-         | H : (_ <? _) = false |- _ => apply Z.ltb_ge in H
-         end.
+(* ---- one packet of flow f: the verdict is the specification's, and the relation is kept ------------------- *)
 
 Ltac fin :=
-  cbn [judge_ok Bool.eqb implb fst snd Rfs c_exp c_in c_ver negb andb orb xorb]; unfold matches;
+  cbn [fst snd Rfs c_exp c_in c_ver negb andb orb after_rules]; unfold matches;
   cbn [c_exp c_in c_ver]; rewrite ?N.eqb_refl;
   first [ exact I
         | split; [reflexivity|];
@@ -95,55 +89,33 @@ Ltac fin :=
 
 Lemma tail_spec fw now fs p d f o :
   addr_ok (f_rules fw) p f = true -> Rfs fw now fs o ->
-  judge_ok (fl_judge fw now fs p d f) (fst (tail_o fw p now d f o)) = true /\
-  Rfs fw now (fl_next fw now fs p d f (fst (tail_o fw p now d f o))) (snd (tail_o fw p now d f o)).
+  fst (tail_o fw p now d f o) = fl_verdict fw now fs p d f /\
+  Rfs fw now (fl_next fw now fs p d f) (snd (tail_o fw p now d f o)).
 Proof.
-  intros A R. unfold FwReload.fl_judge, FwReload.fl_next, Conntrack_proofs.tail_o, after_rules. rewrite A. cbn [negb].
-  set (T := timeout_of fw f).
+  intros A R. unfold FwReload.fl_verdict, FwReload.fl_next, FwReload.fl_live, Conntrack_proofs.tail_o.
+  rewrite A. cbn [negb andb].
   destruct o as [[ce ci cv]|]; cbn [c_exp c_in c_ver].
-  - (* an entry is in the table *)
-    destruct fs as [|e d0 fr|]; cbn [Rfs c_exp] in R.
-    + (* FNone: the entry is a dead leftover *)
-      pose proof R as R'. apply Z.ltb_lt in R'. rewrite R'.
+  - destruct fs as [|e d0 fr]; cbn [Rfs c_exp] in R.
+    + pose proof R as R'. apply Z.ltb_lt in R'. rewrite R'. cbn [orb].
       destruct (allowed (f_rules fw) p d f); fin.
     + destruct R as [[R1 R2]|[M1 [M2 M3]]]; cbn [c_exp c_in c_ver] in *.
-      * (* dead leftover, and the specification's entry is not strictly live *)
-        pose proof R1 as R1'. apply Z.ltb_lt in R1'. rewrite R1'.
-        assert (Hn : (now <? e) = false) by (apply Z.ltb_ge; lia). rewrite Hn.
-        destruct (e <? now) eqn:He.
-        -- destruct (allowed (f_rules fw) p d f); fin.
-        -- destruct (fr || allowed (f_rules fw) p d0 f);
-           destruct (allowed (f_rules fw) p d f); try fin; destruct d, d0; fin.
-      * (* the entry is the one the specification knows *)
-        subst ce ci fr.
+      * pose proof R1 as R1'. apply Z.ltb_lt in R1'. rewrite R1'.
+        pose proof R2 as R2'. apply Z.ltb_lt in R2'. rewrite R2'. cbn [negb andb orb].
+        destruct (allowed (f_rules fw) p d f); fin.
+      * subst ce ci fr.
         replace (negb (N.eqb cv (f_ver fw)) && negb (allowed (f_rules fw) p d0 f))
           with (negb (N.eqb cv (f_ver fw) || allowed (f_rules fw) p d0 f)) by (now rewrite negb_orb).
-        destruct (N.eqb cv (f_ver fw) || allowed (f_rules fw) p d0 f); cbn [negb].
-        -- destruct (now <? e) eqn:H1.
-           ++ apply Z.ltb_lt in H1. assert (H2 : (e <? now) = false) by (apply Z.ltb_ge; lia). rewrite H2. fin.
-           ++ apply Z.ltb_ge in H1. destruct (e <? now) eqn:H2.
-              ** pose proof H2 as H2'. apply Z.ltb_lt in H2'. destruct (allowed (f_rules fw) p d f); fin.
-              ** apply Z.ltb_ge in H2. destruct (allowed (f_rules fw) p d f); try fin. destruct d, d0; fin.
-        -- destruct (now <? e) eqn:H1.
-           ++ apply Z.ltb_lt in H1. assert (H2 : (e <? now) = false) by (apply Z.ltb_ge; lia). rewrite H2.
-              destruct (allowed (f_rules fw) p d f); fin.
-           ++ apply Z.ltb_ge in H1. destruct (e <? now) eqn:H2.
-              ** pose proof H2 as H2'. apply Z.ltb_lt in H2'. destruct (allowed (f_rules fw) p d f); fin.
-              ** apply Z.ltb_ge in H2. destruct (allowed (f_rules fw) p d f); fin.
-    + (* FUnknown *)
-      destruct (ce <? now) eqn:H1.
-      * apply Z.ltb_lt in H1. destruct (allowed (f_rules fw) p d f); fin.
-      * destruct (negb (N.eqb cv (f_ver fw)) && negb (allowed (f_rules fw) p ci f));
-          destruct (allowed (f_rules fw) p d f); fin.
-  - (* no entry *)
-    destruct fs as [|e d0 fr|]; cbn [Rfs] in R.
-    + destruct (allowed (f_rules fw) p d f); fin.
-    + assert (Hn : (now <? e) = false) by (apply Z.ltb_ge; lia). rewrite Hn.
-      destruct (e <? now) eqn:He.
-      * destruct (allowed (f_rules fw) p d f); fin.
-      * destruct (fr || allowed (f_rules fw) p d0 f);
-          destruct (allowed (f_rules fw) p d f); try fin; destruct d, d0; fin.
-    + destruct (allowed (f_rules fw) p d f); fin.
+        destruct (e <? now) eqn:H1.
+        -- pose proof H1 as H1'. apply Z.ltb_lt in H1'. cbn [negb andb orb].
+           destruct (allowed (f_rules fw) p d f); fin.
+        -- apply Z.ltb_ge in H1. cbn [negb andb].
+           destruct (N.eqb cv (f_ver fw) || allowed (f_rules fw) p d0 f); cbn [negb orb].
+           ++ fin.
+           ++ destruct (allowed (f_rules fw) p d f); fin.
+  - destruct fs as [|e d0 fr]; cbn [Rfs] in R.
+    + cbn [orb]. destruct (allowed (f_rules fw) p d f); fin.
+    + pose proof R as R'. apply Z.ltb_lt in R'. rewrite R'. cbn [negb andb orb].
+      destruct (allowed (f_rules fw) p d f); fin.
 Qed.
 
 (* ---- what one event does to the node -------------------------------------------------------------------- *)
